@@ -33,6 +33,14 @@ Theorem C18_zhit_steps_ok :
 Proof. intros. unfold zhit_increments, zhit_total. lia. Qed.
 Print Assumptions C18_zhit_steps_ok.
 
-(* NOT PROVED (kept visible): kk_steps_ok, fit_steps_ok, trnnls_steps_ok, lm_steps_ok, mrq_steps_ok, bht_steps_ok — the number of
+(* fit_circuit: for ALL numbers of methods and weights, one increment per collected fit plus the one of __exit__ equal the announced
+   total ([fit_total], [fit_increments] are translated from fitting.py on every run; a fit that raises FittingError ends the run with
+   the library's own error, which the property allows) *)
+Theorem C18_fit_steps_ok :
+  forall nm nw, (0 <= nm)%Z -> (0 <= nw)%Z -> (fit_increments nm nw + 1 = fit_total nm nw)%Z.
+Proof. intros. unfold fit_increments, fit_total. lia. Qed.
+Print Assumptions C18_fit_steps_ok.
+
+(* NOT PROVED (kept visible): kk_steps_ok, trnnls_steps_ok, lm_steps_ok, mrq_steps_ok, bht_steps_ok — the number of
    increments of those entry points depends on data (break conditions, nested loops) and is only observed: the harness wraps
    Progress and reports any increment beyond the total as a violation with the option tuple as replay. *)
